@@ -359,31 +359,44 @@ def run(ctx):
             ctx.count('generic_unbuildable')
             ctx.mark('generic_build_errors', f"{type(e).__name__}: {str(e)[:80]}")
             return
-        expected = []
-        for m in members_py[:p] + arg_members + members_py[p + 1:]:
-            if not any(m is e_ or m == e_ for e_ in expected):
-                expected.append(m)
+        runs = [(GA, arg, arg_members)]
+        if how == 'union' and len(arg_members) == 2:
+            # the same class parametrised a second time with the argument's members the other way round (the two arguments compare
+            # equal as types): each parametrisation still tries the members in the order ITS argument was written
+            rev = arg_members[::-1]
+            arg2 = t.Union[tuple(rev)]
+            if list(t.get_args(arg2)) == rev:
+                try:
+                    runs.append((G[arg2], arg2, rev))
+                    ctx.count('generic_reversed_argument_classes')
+                except Exception:
+                    pass
         vals = [genval.member(m, rng) for m in uty.a] + [rng.choice(POOL_VALUES) for _ in range(3)]
-        for v in vals:
-            out = observe(GA.from_data, {'value': v})
-            j, mo = first_success(expected, v)
-            if j == 'escape' or out.kind == 'escape':
-                ctx.count('escapes_skipped')
-                continue
-            ctx.count('generic_union_checked')
-            ctx.case(('generic', how, tuple(m.k for m in uty.a), p, j), nontrivial=True)
-            wit = {'written': short(t.Union[tuple(written)], 300), 'argument': short(arg, 200), 'expected_members_in_order': short(expected, 300),
-                   'value': short(v, 200), 'outcome': out.brief(), 'first_accepting_member': j, 'member_outcome': mo.brief() if mo else None}
-            if (j is None) != (out.kind != 'value'):
-                ctx.violation('union-succeeds-iff-a-member-does', 'generic', i, wit, mech='generic-substitution:accept-mismatch')
-                return
-            if j is None:
-                continue
-            ok, why = deep_typed_eq(mo.val, out.val.value)
-            ok2, _ = deep_typed_eq(out.val.value, mo.val)
-            if not (ok and ok2):
-                ctx.violation('leftmost-member-wins', 'generic', i, {**wit, 'why': why}, mech='generic-substitution:not-leftmost')
-                return
+        for GA, arg, arg_members in runs:
+            expected = []
+            for m in members_py[:p] + arg_members + members_py[p + 1:]:
+                if not any(m is e_ or m == e_ for e_ in expected):
+                    expected.append(m)
+            for v in vals:
+                out = observe(GA.from_data, {'value': v})
+                j, mo = first_success(expected, v)
+                if j == 'escape' or out.kind == 'escape':
+                    ctx.count('escapes_skipped')
+                    continue
+                ctx.count('generic_union_checked')
+                ctx.case(('generic', how, tuple(m.k for m in uty.a), p, j), nontrivial=True)
+                wit = {'written': short(t.Union[tuple(written)], 300), 'argument': short(arg, 200), 'expected_members_in_order': short(expected, 300),
+                       'value': short(v, 200), 'outcome': out.brief(), 'first_accepting_member': j, 'member_outcome': mo.brief() if mo else None}
+                if (j is None) != (out.kind != 'value'):
+                    ctx.violation('union-succeeds-iff-a-member-does', 'generic', i, wit, mech='generic-substitution:accept-mismatch')
+                    return
+                if j is None:
+                    continue
+                ok, why = deep_typed_eq(mo.val, out.val.value)
+                ok2, _ = deep_typed_eq(out.val.value, mo.val)
+                if not (ok and ok2):
+                    ctx.violation('leftmost-member-wins', 'generic', i, {**wit, 'why': why}, mech='generic-substitution:not-leftmost')
+                    return
 
     drive.for_each_case(ctx, 'generic', ctx.budget // 3, body_generic, gen=gen_union)
 
